@@ -220,20 +220,34 @@ def _check_source_var(ctx, rid, m, f, name, hopname, fallback_params=()):
         ok = False
         why = ""
         if kind == "assign" and not path:
-            if isinstance(expr, ast.Call) and len(expr.args) == 1 and is_name(expr.args[0], name) and not expr.keywords and \
-                    any(g.name in COERCIONS for g in m.callee_funcs(scope, expr)):
-                ok, why = True, f"coercion {norm(expr)}"
-            elif isinstance(expr, ast.BoolOp) and isinstance(expr.op, ast.Or) and is_name(expr.values[0], name):
-                ok, why = True, f"default {norm(expr)}"
-            elif isinstance(expr, ast.Name) and expr.id in fallback_params:
-                st = stmt_of(scope.module, expr)
-                conds = E.path_condition(scope.module, st, scope.node)
-                ok = any(norm(t) == f"{name} is None" and pol for t, pol in conds)
-                why = f"fallback to {expr.id} exactly when None" if ok else f"{name} overwritten by {expr.id} unconditionally"
+            # guarded leaves of the new value (temporaries and conditional expressions/statements resolved)
+            st_ = stmt_of(scope.module, expr)
+            base = tuple(E.cond_key(t, pol) for t, pol in E.path_condition(scope.module, st_, scope.node))
+            leaves = []
+            if isinstance(expr, ast.Name) and expr.id != name and expr.id not in scope.params and \
+                    all(b[0] == "assign" and not b[2] for b in scope.bindings.get(expr.id, [])) and scope.bindings.get(expr.id):
+                for c_, v_ in E.guarded_assigns(scope, expr.id):
+                    leaves.append((frozenset(base) | c_, v_))
             else:
-                why = f"{name} is overwritten by `{norm(expr)}`"
-        else:
-            why = f"{name} is rebound ({kind})"
+                leaves = E.split_conditional(expr, base)
+            ok = bool(leaves)
+            for c_, v_ in leaves:
+                unset = (f"set:{name}", False) in c_
+                if is_name(v_, name):
+                    continue  # keeps its value
+                if isinstance(v_, ast.Call) and len(v_.args) == 1 and is_name(v_.args[0], name) and not v_.keywords and \
+                        any(g.name in COERCIONS for g in m.callee_funcs(scope, v_) if v_ in scope.own_calls()):
+                    why = f"coercion {norm(v_)}"
+                    continue
+                if isinstance(v_, ast.BoolOp) and isinstance(v_.op, ast.Or) and is_name(v_.values[0], name):
+                    why = f"default {norm(v_)}"
+                    continue
+                if unset and (not fallback_params or (isinstance(v_, ast.Name) and v_.id in fallback_params)):
+                    why = f"fallback to {norm(v_)} exactly when unset"
+                    continue
+                ok = False
+                why = f"{name} is overwritten by `{norm(v_)}`" + ("" if unset else " unconditionally")
+                break
         ok_all &= ok
         if not ok:
             ctx.ob(rid, hopname + "/rebinding", False, loc(scope, expr if expr is not None else scope.node),
